@@ -316,7 +316,7 @@ impl<'u> Tr<'u> {
                     None => None,
                 };
                 let mut env2 = env.clone();
-                if matches!(strip_refs(init), Expr::If(_) | Expr::Match(_) | Expr::Block(_)) && contains_return_expr(init) {
+                if matches!(strip_refs(init), Expr::If(_) | Expr::Match(_) | Expr::Block(_)) && (contains_return_expr(init) || contains_try_expr(init)) {
                     // `let p = match .. { .. => v, .. => return r };`: the rest of the block follows every value leaf
                     if !matches!(pat, Pat::Ident(_) | Pat::Wild(_) | Pat::Tuple(_)) {
                         return self.err(sp, "unsupported pattern in `let`");
@@ -326,7 +326,11 @@ impl<'u> Tr<'u> {
                 }
                 if let Expr::Try(tr) = init {
                     // `let p = e?;`: the Err case leaves the function with the same error
-                    let (g, t) = self.expr(&tr.expr, env, None)?;
+                    let eh = match &env.ret {
+                        Some(Ty::Result(_, b)) => Some(Ty::Result(Box::new(hint.clone().unwrap_or(Ty::Never)), b.clone())),
+                        _ => None,
+                    };
+                    let (g, t) = self.expr(&tr.expr, env, eh.as_ref())?;
                     let (a, b) = match &t {
                         Ty::Result(a, b) => ((**a).clone(), (**b).clone()),
                         _ => return self.err(sp, format!("`?` on a value of type {}", t.coq())),
@@ -484,7 +488,18 @@ impl<'u> Tr<'u> {
                     K::Bind(p, el, h, r, k2) => (*p, el, h, *r, *k2),
                     _ => return self.err(e.span(), "internal: tail_bind without a binding continuation"),
                 };
-                let (g, t) = self.expr(e, env, hint.as_ref())?;
+                // `Some(x?)`: every `?` of the leaf must be evaluated whenever the leaf is; each is hoisted in front of it
+                let hoist = match strict_tries(e) {
+                    Some(n) => n > 0,
+                    None => return self.err(e.span(), "`?` inside a branch, a closure or a lazy operand of the value of a `let`"),
+                };
+                let saved_slots = self.try_slots.take();
+                if hoist {
+                    self.try_slots = Some(Vec::new());
+                }
+                let r = self.expr(e, env, hint.as_ref());
+                let slots = std::mem::replace(&mut self.try_slots, saved_slots).unwrap_or_default();
+                let (g, t) = r?;
                 let t = hint.clone().unwrap_or(t);
                 // a name the branch binds must not hide a name of the enclosing block that the rest may use
                 let mut bound = Vec::new();
@@ -500,7 +515,11 @@ impl<'u> Tr<'u> {
                     _ => self.pattern(pat, &t, &mut env2)?,
                 };
                 let (body, bt) = self.block(rest, &env2, k2)?;
-                Ok((mk_let(binder, Box::new(g), Box::new(body)), bt))
+                let mut whole = mk_let(binder, Box::new(g), Box::new(body));
+                for (n, ge) in slots.into_iter().rev() {
+                    whole = G::Match(Box::new(ge), vec![(format!("inl {n}"), whole), ("inr e".into(), raw("inr e"))]);
+                }
+                Ok((whole, bt))
             }
         }
     }
@@ -557,19 +576,29 @@ impl<'u> Tr<'u> {
                 None => return self.err(arm.span(), "cfg predicate on a match arm is not decided (see cfg_features)"),
             }
             let mut env2 = env.clone();
-            let pat = match self.pattern(&arm.pat, &st, &mut env2) {
-                Ok(p) => p,
-                // the arm can only match variants left out by enum_subset
-                Err(e) if e.excluded => continue,
-                Err(e) => return Err(e),
+            // a string literal / string constant as a pattern: `_` guarded by the equality test (fifth round)
+            let str_test = if st == Ty::Str { self.str_pattern_test(&arm.pat, &s, env)? } else { None };
+            let pat = match &str_test {
+                Some(_) => "_".to_owned(),
+                None => match self.pattern(&arm.pat, &st, &mut env2) {
+                    Ok(p) => p,
+                    // the arm can only match variants left out by enum_subset
+                    Err(e) if e.excluded => continue,
+                    Err(e) => return Err(e),
+                },
             };
             let guard = match &arm.guard {
                 Some((_, g)) => Some(self.expr(g, &env2, Some(&Ty::Bool))?.0),
                 None => None,
             };
+            let guard = match (str_test.clone(), guard) {
+                (Some(a), Some(b)) => Some(app("andb", vec![a, b])),
+                (Some(a), None) => Some(a),
+                (None, g) => g,
+            };
             let (body, bt) = f(self, &arm.body, &env2)?;
             t = pick_ty(t, bt);
-            arms.push(ArmG { pat, guard, body, irrefutable: self.is_irrefutable(&arm.pat, env) });
+            arms.push(ArmG { pat, guard, body, irrefutable: str_test.is_some() || self.is_irrefutable(&arm.pat, env) });
         }
         if arms.is_empty() {
             return self.err(m.span(), "match without arms in this configuration");
@@ -577,6 +606,48 @@ impl<'u> Tr<'u> {
         match assemble_match(&s, &arms) {
             Ok(g) => Ok((g, t)),
             Err(msg) => self.err(m.span(), msg),
+        }
+    }
+
+    /// `"lit"` / `Type::CONST` (a string constant) / an or-pattern of these against a string scrutinee: the equality
+    /// test the pattern stands for; None: some other pattern
+    fn str_pattern_test(&mut self, p: &Pat, scrut: &G, env: &Env) -> R<Option<G>> {
+        match p {
+            Pat::Paren(x) => self.str_pattern_test(&x.pat, scrut, env),
+            Pat::Reference(x) => self.str_pattern_test(&x.pat, scrut, env),
+            Pat::Lit(l) => match &l.lit {
+                Lit::Str(_) => {
+                    let (g, _) = self.lit(&l.lit, Some(&Ty::Str), p.span())?;
+                    Ok(Some(app("String.eqb", vec![scrut.clone(), g])))
+                }
+                _ => Ok(None),
+            },
+            Pat::Path(pp) => match self.resolve_path(&pp.path, env)? {
+                Some(Resolved::Const(t, c)) => {
+                    let (g, ty) = self.ensure_const(&t, &c, p.span())?;
+                    if ty != Ty::Str {
+                        return self.err(p.span(), "a constant that is not a string as a pattern against a string");
+                    }
+                    Ok(Some(app("String.eqb", vec![scrut.clone(), g])))
+                }
+                _ => Ok(None),
+            },
+            Pat::Or(o) => {
+                let mut tests = Vec::new();
+                for c in &o.cases {
+                    match self.str_pattern_test(c, scrut, env)? {
+                        Some(t) => tests.push(t),
+                        None => return Ok(None),
+                    }
+                }
+                let mut it = tests.into_iter();
+                let first = match it.next() {
+                    Some(f) => f,
+                    None => return Ok(None),
+                };
+                Ok(Some(it.fold(first, |a, b| app("orb", vec![a, b]))))
+            }
+            _ => Ok(None),
         }
     }
 
